@@ -63,8 +63,9 @@ theorem case_inSafe (k : Kind) (h : Inv s) (hth : s.threads[t]? = some th) (hpc 
     · rename_i hl
       cases hs
       have hl' : s.hlock = none := by cases hh : s.hlock <;> simp_all
-      refine inv_mut_hl h hth hns (fun u hu => ?_) (fun hp => ?_)
+      refine inv_mut_hl h hth hns (fun u hu => ?_) (fun y hy => ?_) (fun hp => ?_)
       · simp [hl']; exact fun e => hu e.symm
+      · cases hy; exact lt_of_get hth
       · simpa using core_lock .alloc rfl hp hpc
   | gate =>
     simp only [step, hth, hpc] at hs
@@ -73,8 +74,9 @@ theorem case_inSafe (k : Kind) (h : Inv s) (hth : s.threads[t]? = some th) (hpc 
     · rename_i hl
       cases hs
       have hl' : s.hlock = none := by cases hh : s.hlock <;> simp_all
-      refine inv_mut_hl h hth hns (fun u hu => ?_) (fun hp => ?_)
+      refine inv_mut_hl h hth hns (fun u hu => ?_) (fun y hy => ?_) (fun hp => ?_)
       · simp [hl']; exact fun e => hu e.symm
+      · cases hy; exact lt_of_get hth
       · simpa using core_lock .gate rfl hp hpc
 
 theorem case_exitCheck (k : Kind) (h : Inv s) (hth : s.threads[t]? = some th)
@@ -137,11 +139,14 @@ theorem case_retract (k : Kind) (h : Inv s) (hth : s.threads[t]? = some th)
     have hl : s.hlock = some t := by
       have := ((h.thr t th hth).2 hnst).hl
       simpa [hpc, holdsH, isHeapKind, proj] using this
-    refine inv_mut_hl h hth hns (fun u hu => ?_) (fun hq => ?_)
+    refine inv_mut_hl h hth hns (fun u hu => ?_) (fun y hy => ?_) (fun hq => ?_)
     · by_cases hf : s.fix = true
       · simp [hf]
       · have : ¬ (some t = some u) := by simpa using fun e => hu e.symm
         simp [hf, hl, this]
+    · by_cases hf : s.fix = true
+      · simp [hf] at hy; exact h.hlk y hy
+      · simp [hf] at hy
     · have e := core_retract_gate hq hpc
       have hfx : decide ((if s.fix = true then s.hlock else none) = some t) = (proj s t).fx := by
         by_cases hf : s.fix = true <;> simp [hf, hl, proj]
@@ -151,7 +156,7 @@ theorem case_allocd (h : Inv s) (hth : s.threads[t]? = some th) (hpc : th.pc = .
     (s' : State) (hs : step s t .step = some s') : Inv s' := by
   have hns : th.pc.isStopper = false := by simp [hpc, PC.isStopper]
   simp only [step, hth, hpc] at hs; cases hs
-  refine inv_mut_hl h hth hns (fun u hu => ?_) (fun hq => ?_)
+  refine inv_mut_hl h hth hns (fun u hu => ?_) (fun y hy => by cases hy) (fun hq => ?_)
   · have hnst := not_stopper_of_pc h hth hns
     have hl : s.hlock = some t := by
       have := ((h.thr t th hth).2 hnst).hl
